@@ -25,6 +25,11 @@ import GlmVerif.Props.C09.T_shearX2d
 import GlmVerif.Props.C09.T_shearY2d
 import GlmVerif.Props.C09.T_shearX2D
 import GlmVerif.Props.C09.T_shearY2D
+import GlmVerif.Props.C09.T_shear3D
+import GlmVerif.Props.C09.T_scaleBias
+import GlmVerif.Props.C09.T_scaleBiasM
+import GlmVerif.Props.C09.T_axisAngleMatrix
+import GlmVerif.Props.C09.T_extractMatrixRotation
 /-! every family table of C09 holds for the model generated from the current /repo -/
 namespace Glm.Props.C09
 open Glm Glm.Spec.C09 Glm.Gen.C09
@@ -55,5 +60,10 @@ theorem all_ok : ∀ f ∈ families, f.ok lookup = true := by
     (Family.ok_congr f_shearX2d (fun ks => by rw [show f_shearX2d.unit = "shearX2d" from rfl, lookup_shearX2d])).trans shearX2d_ok,
     (Family.ok_congr f_shearY2d (fun ks => by rw [show f_shearY2d.unit = "shearY2d" from rfl, lookup_shearY2d])).trans shearY2d_ok,
     (Family.ok_congr f_shearX2D (fun ks => by rw [show f_shearX2D.unit = "shearX2D" from rfl, lookup_shearX2D])).trans shearX2D_ok,
-    (Family.ok_congr f_shearY2D (fun ks => by rw [show f_shearY2D.unit = "shearY2D" from rfl, lookup_shearY2D])).trans shearY2D_ok⟩
+    (Family.ok_congr f_shearY2D (fun ks => by rw [show f_shearY2D.unit = "shearY2D" from rfl, lookup_shearY2D])).trans shearY2D_ok,
+    (Family.ok_congr f_shear3D (fun ks => by rw [show f_shear3D.unit = "shear3D" from rfl, lookup_shear3D])).trans shear3D_ok,
+    (Family.ok_congr f_scaleBias (fun ks => by rw [show f_scaleBias.unit = "scaleBias" from rfl, lookup_scaleBias])).trans scaleBias_ok,
+    (Family.ok_congr f_scaleBiasM (fun ks => by rw [show f_scaleBiasM.unit = "scaleBiasM" from rfl, lookup_scaleBiasM])).trans scaleBiasM_ok,
+    (Family.ok_congr f_axisAngleMatrix (fun ks => by rw [show f_axisAngleMatrix.unit = "axisAngleMatrix" from rfl, lookup_axisAngleMatrix])).trans axisAngleMatrix_ok,
+    (Family.ok_congr f_extractMatrixRotation (fun ks => by rw [show f_extractMatrixRotation.unit = "extractMatrixRotation" from rfl, lookup_extractMatrixRotation])).trans extractMatrixRotation_ok⟩
 end Glm.Props.C09
